@@ -14,8 +14,12 @@ CodonTot == IntSum(States(3), [w \in States(3) |-> CodonWt(w)])
 PiCodon == [w \in States(3) |-> R(CodonWt(w), CodonTot)]
 PiCodonEq == [w \in States(3) |-> R(1, 61)]
 
-M(name, L, kind, params, pi, rev, stat, tag) ==
-    [name |-> name, L |-> L, kind |-> kind, params |-> params, pi |-> pi, reversible |-> rev, stationary |-> stat, tag |-> tag]
+MG(name, L, kind, params, pi, rev, stat, tag, gc) ==
+    [name |-> name, L |-> L, kind |-> kind, params |-> params, pi |-> pi, reversible |-> rev, stationary |-> stat, tag |-> tag, gc |-> gc]
+M(name, L, kind, params, pi, rev, stat, tag) == MG(name, L, kind, params, pi, rev, stat, tag, 1)
+(* the same for the vertebrate mitochondrial code (60 sense codons) *)
+CodonTot2 == IntSum(StatesG(3, 2), [w \in StatesG(3, 2) |-> CodonWt(w)])
+PiCodon2 == [w \in StatesG(3, 2) |-> R(CodonWt(w), CodonTot2)]
 
 GTRp == << <<"A/C", R(2,1)>>, <<"A/G", R(3,1)>>, <<"A/T", R(5,1)>>, <<"C/G", R(7,1)>>, <<"C/T", R(1,2)>> >>
 (* smaller values where 61x61 exact arithmetic would exceed 32 bits *)
@@ -46,6 +50,12 @@ CodonInstances == <<
     M("CNFHKY",  3, "conditional", << <<"kappa", R(3,1)>>, <<"omega", R(1,2)>> >>, PiCodon, TRUE, TRUE, "k3w"),
     M("CNFGTR",  3, "conditional", GTRs \o << <<"omega", R(2,1)>> >>, PiCodon, TRUE, TRUE, "small")
 >>
+(* another genetic code, instantiated AFTER models of the standard code and followed by the standard code again *)
+Gc2Instances == <<
+    MG("GY94",    3, "word", << <<"kappa", R(3,1)>>, <<"omega", R(1,2)>> >>, PiCodon2, TRUE, TRUE, "k3w-gc2", 2),
+    MG("MG94HKY", 3, "monomer", << <<"kappa", R(3,1)>>, <<"omega", R(1,2)>> >>, Pi1(1,2,3,4), TRUE, TRUE, "k3w-gc2", 2),
+    M("Y98",      3, "word", << <<"kappa", R(3,1)>>, <<"omega", R(1,2)>> >>, PiCodon, TRUE, TRUE, "k3w-after-gc2")
+>>
 
 (* dinucleotide models (16 states), built by the user from the predicate algebra; three motif-probability forms *)
 DinucWt(w) == 1 + ((NIdx(w[1]) + 3 * NIdx(w[2])) % 4)
@@ -65,8 +75,8 @@ PsInstances == <<
     M("user:Codon:monomers", 3, "monomers", << <<"kappa", R(3,1)>>, <<"omega", R(1,2)>> >>,
       Pi3(<<1,2,3,4>>, <<2,1,1,1>>, <<1,1,2,2>>), TRUE, TRUE, "k3w")
 >>
-AllInstances == NucInstances \o CodonInstances \o DinucInstances \o PsInstances
-QuickInstances == NucInstances \o <<CodonInstances[1], CodonInstances[3], CodonInstances[5]>> \o DinucInstances \o PsInstances
+AllInstances == NucInstances \o CodonInstances \o Gc2Instances \o DinucInstances \o PsInstances
+QuickInstances == NucInstances \o <<CodonInstances[1], CodonInstances[3], CodonInstances[5], Gc2Instances[1], Gc2Instances[3]>> \o DinucInstances \o PsInstances
 CnfOnly == <<CodonInstances[5]>>
 CnfGtrOnly == <<CodonInstances[6]>>
 =============================================================================
